@@ -61,9 +61,12 @@ CHECKS = {
              "exceptional exit at any depth, exactly one stop signal on leaving an application block, connection choice for "
              "chips and BMPs; and, for EVERY decorated method of the two controllers (signature list regenerated from the "
              "source by ast and by introspection on every run), every command the method hands to a connection carries the "
-             "resolved chip/core/app id (symbolic checker with a once-for-all soundness proof, run over the generated list). "
-             "Tied to the code by exact whole-trace correspondence against recording fake connections; an independent Python "
-             "resolution judges every trace entry.",
+             "resolved chip/core/app id (symbolic checker with a once-for-all soundness proof, run over the generated list), "
+             "incl. board collections of BMP set_led/set_power (first board addressed, mask of all); kept Context objects "
+             "contribute exactly their own arguments wherever entered; discover_connections as a model step (current "
+             "dimensions, retained connections, only probed-ok new ones). The statements of contexts.py and of the controller "
+             "functions the model follows are re-matched by ast on every run (GenContextShape, fail closed). Tied to the code "
+             "by exact whole-trace correspondence against recording fakes; an independent Python resolution judges every entry.",
         ref="4 C18", technique="Coq proof (resolution/stack invariants, symbolic checker with soundness proof over generated signatures) + dumped signatures (T) + vm_compute trace correspondence",
         note=TB + " Method bodies are modelled on the path taken against a fake machine where every command succeeds; failure/"
              "retry paths are judged by the oracle only."),
@@ -107,13 +110,14 @@ CHECKS = {
         note=TB + " The two-round use of ordered_covering with aliases from an earlier call is tied by correspondence only; "
              "entries with empty source sets are outside the stated domain."),
     "C20": dict(
-        text="Full. Universal theorems over all images, option sets and boot histories about a Gallina model of boot() driven "
-             "by constants, struct formats and the live sv struct regenerated from the source/modules on every run: datagram "
-             "sequence (start announcing n-1, blocks 0..n-1 of <= 1 KiB, end), byte-exact reassembly (image except the 128-byte "
-             "configuration area = packed sv defaults with THIS call's options), returned struct definitions, history "
-             "independence and untouched dictionaries for the repaired code, refutations for the code as found (option leak, "
-             "caller's dict mutated), error branches. Exact datagram correspondence for sequences of 1-4 boots through boot() "
-             "and MachineController.boot against a recording socket and scripted clock; independent reassembly oracle.",
+        text="Full. Universal theorems over all images, option sets and histories about a Gallina model of boot() driven by "
+             "constants, struct formats and the live sv struct regenerated on every run: datagram sequence, byte-exact "
+             "reassembly (image except the 128-byte configuration area = packed sv with THIS call's options), returned "
+             "structs, history independence and untouched dictionaries, refutations for the code as found (option leak, "
+             "caller's dict mutated), error branches (unknown name, value that does not fit its field, size, alignment). "
+             "Entry points MachineController.boot (width/height dropped, structs replaced; every controller's structs "
+             "describe its own last boot after any operations) and rig-boot (dumped flag table = documented presets) are "
+             "modelled over a fail-closed ast shape. Exact datagram/controller correspondence; independent reassembly oracle.",
         ref="4 C20", technique="Coq proof (struct-format interpreter, history induction) + dumped constants/struct (T) + vm_compute datagram correspondence",
         note=TB + " OS socket and clock are explicit inputs; rig's struct-file parser is tied by correspondence only."),
     "C11": dict(
@@ -179,9 +183,14 @@ CHECKS = {
              "out-set (and which one is reported). Route set <-> 24-bit word bijection (bit lemma). Router load: when the allocator "
              "grants a block exactly four commands are issued and slots base.. hold the given entries in order with the app id, "
              "all other slots and chips unchanged; on refusal RouterError, only the ALLOC issued, nothing installed; read-back "
-             "decodes the same entries (sources are not stored by hardware: stated). Command arguments, record layout and decode "
-             "expressions translated from source; exact correspondence against a simulated router written from the SC&MP "
-             "documentation, independent of rig's constants.",
+             "decodes the same entries (sources are not stored by hardware: stated); load_routing_tables chip by chip incl. first "
+             "refusal. Deprecated build_routing_tables modelled over the core: flag False = routing_tree_to_tables (theorem, all "
+             "inputs), True = per chip C04's remove_default_routes (kept entries unchanged in order, omitted only if "
+             "default_routable, route_eq), same error. Histories/programs with nested with/try contexts: the model decides which "
+             "statements run and what each addresses (lexical rule); every statement talks only to its chip, allocates for its app "
+             "id, and a load that does not succeed leaves every router unchanged (no well-formedness assumed). Command arguments, "
+             "record layout, decode expressions and the wrappers' shapes re-read from source (fail closed); exact correspondence "
+             "against a simulated router written from the SC&MP documentation, independent of rig's constants.",
         ref="4 C10", technique="Coq proof (traversal/fold invariants, bit lemmas, machine-state frame theorem) + ast/py2v translation + vm_compute correspondence",
         note=TB + " SARK's allocator is modelled (theorems quantify over every allocator answer); packetisation is C06/C07's."),
     "C12": dict(
@@ -190,7 +199,12 @@ CHECKS = {
              "any order with duplicates: every core is selected by exactly one emitted (region, mask) pair iff it was requested "
              "and by none otherwise; the output is strictly increasing (as pairs and as loader keys), words are 32-bit, masks "
              "non-empty 18-bit; the default-level word selects exactly its chip; the finite bit layer for all x, y < 256 and "
-             "levels <= 3 by computation with the bound in the statement. Exact list correspondence; oracle expands every pair.",
+             "levels <= 3 by computation with the bound in the statement. One tree used as an object (add_core interleaved "
+             "with traversals): every traversal is an exact cover of the cores added before it. Entry points: the FFCS packets "
+             "flood_fill_aplx sends (arguments generated from _send_ffcs) decode to an exact cover in increasing order; "
+             "load_application's re-load request is exactly the requested cores not in wait; shapes of both re-read from source, "
+             "fail closed, as is the absence of module/class-level state. Exact list correspondence (pairs, packets, every "
+             "read; histories, numpy scalars, one-shot iterables, sets changed in place); oracle expands every pair.",
         ref="4 C12", technique="Coq proof (tree invariant by induction on levels; finite bit layer by vm_compute) + py2v translation + vm_compute correspondence",
         note=TB),
     "C15": dict(
@@ -216,16 +230,15 @@ CHECKS = {
         ref="4 C14", technique="Coq proof (encode/decode round trips, exactness of the derived machine model) + py2v/ast translation + vm_compute correspondence",
         note=TB + " SC&MP reply layouts as documented; read chunking/retransmission are C07/C06; a 256-wide machine cannot be encoded in the 8-bit dimension fields and is excluded."),
     "C09": dict(
-        text="Full under stated guards, plus two known findings. Packet-field expressions, nn-id cycle, block count and loop "
-             "tests are translated from source on every run. Theorems over all application maps, per-fill miss sets and initial "
-             "core states: every flood fill is well formed (start, strictly increasing core selects selecting exactly the requested "
-             "cores, blocks numbered 0..n-1 within the buffer at consecutive addresses reassembling to the binary, announced count = "
-             "blocks sent, end packet) and loads exactly the selected cores on the listening chips; normal return implies every "
-             "requested core holds its binary under the app id (waiting or started) and unrequested cores are untouched; otherwise "
-             "the loading error names exactly the unloaded cores after at most n_tries+1 attempts, each retry addressed only to "
-             "the cores still missing -- under the guards no_requested_waiting (+ no_other_waiting in count mode); both guards are "
-             "proved necessary by refutation theorems whose witnesses are replayed on the real code on every run (the two known "
-             "findings). Real controller datagram by datagram against an independent simulator; trace validator; ground-truth oracle.",
+        text="Full under stated guards, plus two known findings. Packet-field expressions, nn-id cycle, block count and loop tests are "
+             "translated from source on every run; the control flow the model mirrors (packet order of a fill, retry loop, count/per-core "
+             "switch, the error's constructor and message) is compared with the source fail-closed. Theorems over all application maps, "
+             "per-fill miss sets (per-chip vcpu_base, any initial core states): every flood fill -- also of the bare entry point "
+             "flood_fill_aplx, whose effect on the machine is proved -- is well formed and selects exactly the entry's cores (composed from "
+             "C12's exactness); normal return implies every requested core holds its binary (waiting or started), others untouched; "
+             "otherwise only the loading error, whose map and message name exactly the unloaded cores after <= n_tries+1 attempts, retries "
+             "only to missing cores -- under no_requested_waiting (+ no_other_waiting in count mode), both proved necessary by refutations "
+             "replayed on the real code (the known findings). Real controller datagram by datagram against an independent simulator.",
         ref="4 C09", technique="Coq proof (machine/controller refinement, invariant over attempts) + py2v/ast translation + vm_compute correspondence + trace validator",
         note=TB + " SC&MP flood-fill semantics as written in Model/Load.v; guards on binary size (multiple of 4, <= 255 blocks) are stated in the theorems."),
     "C03": dict(
